@@ -47,18 +47,30 @@ INVARIANT FlagCoversData
 """
 
 
-def child(scen, path, crash, flush, trace_out="-", mode="kill", fail_step=0):
+def child(scen, path, crash, flush, trace_out="-", mode="kill", fail_step=0, version=""):
     env = dict(os.environ, PYTHONPATH=core.REPO + ":" + core.VERIF, OMP_NUM_THREADS="1", VERIF_CRASH_MODE=mode,
-               VERIF_FAIL_STEP=str(fail_step))
+               VERIF_FAIL_STEP=str(fail_step), VERIF_FAKE_VERSION=version)
     p = subprocess.run([core.PY, "-m", "harness.ptfile_child", scen, path, str(crash), str(flush), trace_out],
                        env=env, cwd=core.VERIF, stdout=subprocess.PIPE, stderr=subprocess.STDOUT, text=True,
                        timeout=300)
     return p.returncode, p.stdout[-800:]
 
 
-def classify(path):
-    """Import the file with both import types: error / warn / clean (+ content summary)."""
+def classify(path, version=""):
+    """Import the file with both import types: error / warn / clean (+ content summary).  `version`: the release number the
+    reading library reports (writer and reader of the same, other than the present, release)."""
     import oqupy
+    import oqupy.process_tensor as ptmod
+    saved_version = ptmod.__version__
+    if version:
+        ptmod.__version__ = version
+    try:
+        return _classify(path, oqupy)
+    finally:
+        ptmod.__version__ = saved_version
+
+
+def _classify(path, oqupy):
     out = {}
     for typ in ("file", "simple"):
         with warnings.catch_warnings(record=True) as w:
@@ -88,8 +100,9 @@ def crash_job(job):
     scen, k, f, allowed, tmpdir, full = job[:6]
     mode = job[6] if len(job) > 6 else "kill"
     fail_step = job[7] if len(job) > 7 else 0
-    path = os.path.join(tmpdir, "crash_%s_%d_%d_%s_%d.h5" % (scen, k, f, mode, fail_step))
-    rc, outp = child(scen, path, k, f, mode=mode, fail_step=fail_step)
+    version = job[8] if len(job) > 8 else ""
+    path = os.path.join(tmpdir, "crash_%s_%d_%d_%s_%d_%s.h5" % (scen, k, f, mode, fail_step, version.replace(".", "_")))
+    rc, outp = child(scen, path, k, f, mode=mode, fail_step=fail_step, version=version)
     res = []
     if fail_step and rc == 0:
         if os.path.exists(path):
@@ -99,7 +112,7 @@ def crash_job(job):
         return [{"what": "harness", "detail": "child rc=%s %s" % (rc, outp[-200:])}]
     if not os.path.exists(path):
         return []          # nothing on disk: opening fails trivially
-    cl = classify(path)
+    cl = classify(path, version)
     os.remove(path)
     for typ, info in cl.items():
         if info["cls"] == "clean":
@@ -284,6 +297,11 @@ def run(ctx):
                 if quick and k % 3:
                     continue
                 jobs.append((scen, k, k, set(cls[k:k + 1]) | {"error", "warn"}, tmpdir, full, "raise"))
+            # the same library at another release number (writer and reader alike): the protocol does not depend on it
+            if scen == "export2":
+                for ver in (("0.10.0",) if quick else ("0.10.0", "0.9.3", "1.0.0", "0.49.2", "2.0.0")):
+                    for k in range(2, nev + 1, 3 if quick else 1):
+                        jobs.append((scen, k, k, set(cls[k:k + 1]) | {"error", "warn"}, tmpdir, full, "raise", 0, ver))
             # ... or between file operations: in the j-th propagation step of a file-backed PT-TEMPO run (the file
             # exists, the flag is up, nothing may declare it complete while the stack unwinds)
             if scen.startswith("pt"):
@@ -314,8 +332,10 @@ def run(ctx):
         for job, mm in zip(jobs, res):
             scen, k, f = job[0], job[1], job[2]
             how = job[6] if len(job) > 6 else "kill"
-            if len(job) > 7:
+            if len(job) > 7 and job[7]:
                 how = "raise in propagation step %d" % job[7]
+            if len(job) > 8:
+                how += ", release %s" % job[8]
             ctx.case({"scenario": scen, "crash_after_op": k, "flush_after_op": f, "death": how}, nontrivial=f > 0)
             for x in mm:
                 if x["what"] == "harness":
